@@ -5,9 +5,6 @@ From DepsDev Require Import Lib.Base Lib.Order Lib.PadLex Semver.Version Semver.
 Local Open Scope Z_scope.
 
 (* ------------------------------------------------------------------ element comparator *)
-(* category as the loop uses it: the empty string counts as a qualifier *)
-Definition gcat (e : gem_elem) : Z :=
-  let k := version_category (ge_str e) in if k =? cat_eof then cat_qualifier else k.
 Definition gnum (e : gem_elem) : Z := if gcat e =? cat_numeric then ge_int e else 0.
 Definition gstr (e : gem_elem) : bytes := if gcat e =? cat_numeric then [] else ge_str e.
 
@@ -189,7 +186,6 @@ Proof.
 Qed.
 
 (* ------------------------------------------------------------------ on versions *)
-Definition gem_elems (v : version) : list gem_elem := match v_ext v with GemExt l => l | _ => [] end.
 Definition gem_cmp_v (a b : version) : Z := gem_compare (v_num a) (v_num b) (gem_elems a) (gem_elems b).
 
 (* a RubyGems version whose prerelease does not end in a numeral of value 0 *)
